@@ -253,6 +253,7 @@ def render_block(kind, c, lines, rng=None):
 @dataclass
 class ModelCfg:
     max_states: int = 4
+    min_states: int = 1
     max_params: int = 4
     max_inters: int = 6
     max_comps: int = 3
@@ -316,7 +317,7 @@ def gen_model(rng: random.Random, cfg: ModelCfg | None = None) -> GModel:
                 return n
         return name("s")
 
-    for k in range(rng.randint(1, cfg.max_states)):
+    for k in range(rng.randint(min(cfg.min_states, cfg.max_states), cfg.max_states)):
         if k > 0 and rng.random() < cfg.p_prefix_names:
             n = related(rng.choice(list(m.states)))
         else:
